@@ -186,6 +186,14 @@ def unknown_alphabet() -> List[wire.Rec]:
         out.append(wire.make_rec(n, wire.FIXED64, b"\x01\x02\x03\x04\x05\x06\x07\x08"))
         for p in (b"", b"abc", b"\x28\x01" + b"q" * 198):
             out.append(wire.make_rec(n, wire.LEN, p))
+    # legal NON-MINIMAL encodings: "byte-for-byte" must hold for them too
+    for n in (1, 2047):
+        out.append(wire.make_rec(n, wire.LEN, b"abcde", len_pad=3))
+        out.append(wire.make_rec(n, wire.LEN, b"", len_pad=2))
+        out.append(wire.make_rec(n, wire.VARINT, 7, val_pad=3))
+        out.append(wire.make_rec(n, wire.VARINT, 0, val_pad=10))
+        out.append(wire.make_rec(n, wire.FIXED32, b"\x01\x02\x03\x04", tag_pad=4))
+        out.append(wire.make_rec(n, wire.LEN, b"xy", tag_pad=5, len_pad=5))
     return out
 
 
